@@ -110,6 +110,8 @@ def client_text(rec: dict) -> Optional[str]:
         imp = f"from {outer} import *\n"
         if variant == "twostars":
             imp = "from extra import *\n" + imp
+        if variant == "basestar":
+            imp = "from base import *\n" + imp
         refs = uses
     elif form == "module":
         if variant == "unused":
@@ -212,12 +214,22 @@ def _case(mods, rec):
 
 # ------------------------------------------------------------------------------------------ the client's own imports (InitStd)
 STD_STMT = {"import_os_path": "import os.path", "import_conc_futures": "import concurrent.futures", "import_xml_minidom": "import xml.dom.minidom",
-            "from_os_path": "from os import path", "from_sys_path": "from sys import path", "import_json_as_j": "import json as j",
+            "import_xml_etree": "import xml.etree.ElementTree", "from_os_path": "from os import path", "from_sys_path": "from sys import path", "import_json_as_j": "import json as j",
             "import_json": "import json", "from_json_dumps": "from json import dumps as dump", "from_pickle_dumps": "from pickle import dumps as dump",
             "from_ospath_join": "from os.path import join", "from_shlex_join": "from shlex import join", "import_pickle_as_json": "import pickle as json"}
-# the expression by which the client uses what a statement binds
-STD_USE = {"os": "os.path.join", "concurrent": "concurrent.futures.Future", "xml": "xml.dom.minidom.parseString", "path": "path", "j": "j.loads",
-           "json": "json.loads", "dump": "dump", "join": "join"}
+# the expression by which the client uses what a statement binds (one per statement)
+STD_USE = {"import_os_path": "os.path.join", "import_conc_futures": "concurrent.futures.Future", "import_xml_minidom": "xml.dom.minidom.parseString",
+           "import_xml_etree": "xml.etree.ElementTree.Element", "from_os_path": "path", "from_sys_path": "path", "import_json_as_j": "j.loads",
+           "import_json": "json.loads", "from_json_dumps": "dump", "from_pickle_dumps": "dump", "from_ospath_join": "join", "from_shlex_join": "join",
+           "import_pickle_as_json": "json.loads"}
+
+
+# (name bound, object) per statement, as in the catalogue of Imports.tla
+STD_BIND = {"import_os_path": ("os", "mod:os"), "import_conc_futures": ("concurrent", "mod:concurrent"), "import_xml_minidom": ("xml", "mod:xml"),
+            "import_xml_etree": ("xml", "mod:xml"), "from_os_path": ("path", "mod:os.path"), "from_sys_path": ("path", "sys.path"),
+            "import_json_as_j": ("j", "mod:json"), "import_json": ("json", "mod:json"), "from_json_dumps": ("dump", "json.dumps"),
+            "from_pickle_dumps": ("dump", "pickle.dumps"), "from_ospath_join": ("join", "os.path.join"), "from_shlex_join": ("join", "shlex.join"),
+            "import_pickle_as_json": ("json", "mod:pickle")}
 
 
 def std_expected(obj: str):
@@ -230,18 +242,17 @@ def std_expected(obj: str):
 
 def std_client(rec) -> str:
     stmts = [STD_STMT[i] for i in rec["stmts"]]
-    names = sorted({n for n, _ in rec["resolve"]})
-    refs = ", ".join(STD_USE[n] for n in names)
+    refs = ", ".join(STD_USE[i] for i in rec["stmts"])
     if rec["place"] == "infunc":
-        return "def use():\n" + "".join(f"    {s}\n" for s in stmts) + f"    return [{refs}]\n\n\nprint(len(use()))\n"
+        return "def use():\n" + "".join(f"    {s}\n" for s in stmts) + f"    return [{refs}]\n\n\nprint([getattr(o, '__name__', type(o).__name__) for o in use()])\n"
     if rec["place"] == "mixed" and len(stmts) > 1:
-        return "\n".join(stmts[:-1]) + "\n\n\ndef use():\n" + f"    {stmts[-1]}\n    return [{refs}]\n\n\nprint(len(use()))\n"
-    return "\n".join(stmts) + "\n\n\ndef use():\n" + f"    return [{refs}]\n\n\nprint(len(use()))\n"
+        return "\n".join(stmts[:-1]) + "\n\n\ndef use():\n" + f"    {stmts[-1]}\n    return [{refs}]\n\n\nprint([getattr(o, '__name__', type(o).__name__) for o in use()])\n"
+    return "\n".join(stmts) + "\n\n\ndef use():\n" + f"    return [{refs}]\n\n\nprint([getattr(o, '__name__', type(o).__name__) for o in use()])\n"
 
 
 def _std_case(mods, rec):
     text = std_client(rec)
-    names = sorted({n for n, _ in rec["resolve"]})
+    names = list(rec["stmts"])
     tmp = os.path.realpath(tempfile.mkdtemp(prefix="verif-c18s-"))
     import contextlib
     import io
@@ -252,10 +263,12 @@ def _std_case(mods, rec):
         try:
             with contextlib.redirect_stdout(io.StringIO()):
                 objs_a = importlib.import_module("client_a").use()
+        except AttributeError:
+            return {"skip": True}        # a later statement rebinds the name to an object without that attribute: not a program that runs
         except BaseException as exc:  # noqa: BLE001
             return {"machinery": f"the generated client does not run: {type(exc).__name__}: {exc}", "client": text}
-        # ---- (C): LastBinding against CPython.  The use expression goes one attribute further for module objects.
-        want = dict(rec["resolve"])
+        # ---- (C): LastBinding against CPython.  The use expression goes on from the bound object by attribute access.
+        want = {i: o for i, o in rec["resolve"]}
         for n, o in zip(names, objs_a):
             root = std_expected(want[n])
             tail = STD_USE[n].split(".")[1:]
@@ -281,7 +294,7 @@ def _std_case(mods, rec):
         except BaseException as exc:  # noqa: BLE001
             res["bad"] = f"the formatted client no longer runs: {type(exc).__name__}: {exc}"
             return res
-        diff = [(n, repr(a)[:60], repr(b)[:60]) for n, a, b in zip(names, objs_a, objs_b) if a is not b]
+        diff = [(STD_USE[n], repr(a)[:60], repr(b)[:60]) for n, a, b in zip(names, objs_a, objs_b) if a is not b]
         if len(objs_a) != len(objs_b) or diff:
             res["bad"] = f"referenced names resolve to different objects after formatting: {diff}"
         return res
@@ -301,20 +314,36 @@ def std_part(rep: Report, t: str, rng: random.Random, known) -> Tuple[int, int]:
         raise MachineryError("Imports: no standard library cases")
     results = workers.run_tasks(_std_case, recs, init=_init, procs=16, timeout=300, fork_per_task=True)
     n_run = n_changed = 0
+    # sub-modules stay imported inside one interpreter: whether the formatted client still imports what it uses
+    # only shows in a FRESH interpreter
+    import execbox
+    runner = execbox.default_runner()
+    pairs = [(r["client"], r["formatted"]) for r in results if isinstance(r, dict) and r.get("changed") and "bad" not in r]
+    texts = sorted({t for p in pairs for t in p})
+    obs = dict(zip(texts, runner.observe_many(texts)))
+    for r in results:
+        if isinstance(r, dict) and r.get("changed") and "bad" not in r and obs[r["client"]][0] == "ok" and obs[r["formatted"]] != obs[r["client"]]:
+            r["bad"] = f"in a fresh interpreter the formatted client gives {obs[r['formatted']]} instead of {obs[r['client']]}"
     for rec, r in zip(recs, results):
         if not isinstance(r, dict):
             raise MachineryError(f"case did not finish: {r} ({rec})")
         if "machinery" in r:
             raise MachineryError(f"{r['machinery']}: {json.dumps({k: v for k, v in r.items() if k != 'machinery'}, default=str)[:1500]}")
+        if r.get("skip"):
+            continue
         n_run += 1
         n_changed += bool(r.get("changed"))
         if "bad" not in r:
             continue
         sh = blame.shape(r["client"], r["formatted"]) if r.get("formatted") else {}
-        binds = {}
+        # two statements that bind one name to DIFFERENT objects (the model's catalogue says which object)
+        objs = {}
+        for i, o in rec["resolve"]:
+            pass
+        bound = {}
         for i in rec["stmts"]:
-            binds.setdefault(STD_STMT[i].split()[-1], []).append(i)
-        feats = [f"std-{i}" for i in rec["stmts"]] + [f"place-{rec['place']}"] + (["same-name-bound-twice"] if any(len(v) > 1 for v in binds.values()) else [])
+            bound.setdefault(STD_BIND[i][0], set()).add(STD_BIND[i][1])
+        feats = [f"std-{i}" for i in rec["stmts"]] + [f"place-{rec['place']}"] + (["same-name-bound-twice"] if any(len(v) > 1 for v in bound.values()) else [])
         sh = dict(sh, features=list(sh.get("features", [])) + feats)
         kf = next((e["id"] for e in known if blame.matches_signature(e, "format_code", sh, r["client"])), None)
         case = {"statements": [STD_STMT[i] for i in rec["stmts"]], "place": rec["place"], "client": r["client"], "formatted": r.get("formatted"),
@@ -335,7 +364,7 @@ def main(argv=None) -> int:
     cfg = "\n".join(["CONSTANTS", '  BaseAlls = {"none", "alpha"}', '  MidForms = {"from", "alias", "star", "module", "redef"}',
                      '  TopForms = {"absent", "from", "alias", "star", "module", "redef"}',
                      '  ClientForms = {"from", "alias", "star", "module", "modalias"}',
-                     '  Variants = {"plain", "dup", "infunc", "unused", "stacked", "late", "twostars"}', '  Pkgs = {"flat", "pkgabs", "pkgrel", "subabs", "subrel"}',
+                     '  Variants = {"plain", "dup", "infunc", "unused", "stacked", "late", "twostars", "basestar"}', '  Pkgs = {"flat", "pkgabs", "pkgrel", "subabs", "subrel"}',
                      f"  MaxUses = {2 if t == 'quick' else 3}", "  MaxStd = 1", '  StdPlaces = {"top"}', "INIT Init", "NEXT Next", "INVARIANT OriginsAreDefinitions", "INVARIANT Dump",
                      "CHECK_DEADLOCK FALSE", ""])
     res = run_tlc("Imports", cfg, timeout_s=3000, keep_stdout=False, heap_gb=12)
